@@ -32,32 +32,48 @@ func c05Leaf(w WLCase, out GenOut) string {
 		}
 	}
 	L := w.Length
-	wantTokens := L
-	if nonEmpty {
-		wantTokens = 2*L - 1
+	canEmpty, canFull := false, false
+	for _, sv := range seps {
+		if sv == "" {
+			canEmpty = true
+		} else {
+			canFull = true
+		}
 	}
-	if len(out.Toks) != wantTokens {
-		return fmt.Sprintf("%d tokens, expected %d (Length %d, separator non-empty: %v)", len(out.Toks), wantTokens, L, nonEmpty)
-	}
+	_ = nonEmpty
 	var atoms, sp []string
 	var concat strings.Builder
-	for i, t := range out.Toks {
-		concat.WriteString(t.V)
-		isAtomPos := !nonEmpty || i%2 == 0
-		if isAtomPos {
-			if t.T != 1 {
-				return fmt.Sprintf("token %d (%q) should be an atom", i, t.V)
-			}
-			atoms = append(atoms, t.V)
-		} else {
-			if t.T != 0 {
-				return fmt.Sprintf("token %d (%q) should be a separator", i, t.V)
-			}
-			if !sepSet[t.V] {
-				return fmt.Sprintf("separator %q is not one the separator setting can produce", t.V)
-			}
-			sp = append(sp, t.V)
+	// grammar: atom ( [separator] atom )*, the separator mandatory when the
+	// setting cannot yield "", forbidden when it can yield nothing else
+	i := 0
+	for i < len(out.Toks) {
+		t := out.Toks[i]
+		if t.T != 1 {
+			return fmt.Sprintf("token %d (%q) should be an atom", i, t.V)
 		}
+		atoms = append(atoms, t.V)
+		concat.WriteString(t.V)
+		i++
+		if i == len(out.Toks) {
+			break
+		}
+		if out.Toks[i].T == 0 {
+			sv := out.Toks[i].V
+			if sv == "" || !sepSet[sv] {
+				return fmt.Sprintf("separator token %q is not one the separator setting can produce", sv)
+			}
+			sp = append(sp, sv)
+			concat.WriteString(sv)
+			i++
+			if i == len(out.Toks) {
+				return "the password ends with a separator"
+			}
+		} else if !canEmpty {
+			return fmt.Sprintf("no separator between atoms %d and %d although the separator is never empty", len(atoms)-1, len(atoms))
+		}
+	}
+	if len(sp) > 0 && !canFull {
+		return "separator tokens present although the separator is empty"
 	}
 	if len(atoms) != L {
 		return fmt.Sprintf("%d atoms, Length is %d", len(atoms), L)
@@ -203,6 +219,27 @@ func c05Run(c *core.Ctx) {
 		}
 		c05Case(c, w, CellOpt{DepthCut: 64, Fallback: 2, MaxMenu: 20000, MaxLeaves: maxLeaves * 4, Dev: -1})
 	}
+	// long passwords: every execution with at most one deviating draw
+	// (position-dependent behaviour that only starts at 16/32/64/256 words)
+	longL := []int{16, 17, 32, 33, 64, 65, 66, 130, 257}
+	if c.Thorough() {
+		longL = []int{15, 16, 17, 31, 32, 33, 63, 64, 65, 66, 127, 128, 129, 130, 255, 256, 257, 300, 1000}
+	}
+	for _, L := range longL {
+		for _, cp := range wlSchemes {
+			for _, ws := range [][]string{{"ab"}, {"ab", "cd"}} {
+				for _, sp := range []Sep{{Kind: "none"}, {Kind: "char", Char: "-"}, {Kind: "customMixed"}} {
+					if L > 130 && (len(ws) > 1 || sp.Kind == "customMixed") {
+						continue
+					}
+					if c.Mine() {
+						c05Case(c, WLCase{Words: ws, Length: L, Cap: cp, Sep: sp}, CellOpt{DepthCut: 3*L + 8, Fallback: 2, MaxMenu: 1 << 17, MaxLeaves: 500000, Dev: 1})
+						c.Count("long_length_cases", 1)
+					}
+				}
+			}
+		}
+	}
 	// separator recipes that need retries: deviation-bounded (<= 2, thorough 3)
 	dev := 2
 	if c.Thorough() {
@@ -223,7 +260,7 @@ func init() {
 	Register(&core.Check{
 		ID:    "C05",
 		Level: "model_checking",
-		Rule: "every leaf of the complete cells of the wordlist configuration set of C04 (all outcome combinations of all draws on the real Generate), plus unknown scheme strings, 255-character words, lengths 4-5, multi-byte separators, and separator recipes with retries explored with at most 2 (thorough 3) deviating draws; each returned password is checked against the token grammar of its scheme; " +
+		Rule: "every leaf of the complete cells of the wordlist configuration set of C04 (all outcome combinations of all draws on the real Generate), plus unknown scheme strings, 255-character words, lengths 4-5, multi-byte separators, lengths 16-257 (thorough to 1000) with at most one deviating draw, title-casing corner-case words, a caller-written separator that is sometimes empty, and separator recipes with retries explored with at most 2 (thorough 3) deviating draws; each returned password is checked against the token grammar of its scheme; " +
 			"non-trivial = distinct token sequences observed",
 		Assume: []string{"positions holding a word that does not change under title-casing are not used to decide the capitalisation pattern", "word lists with the empty word are outside the explored alphabet"},
 		Run:    c05Run,
